@@ -171,7 +171,11 @@ impl<'a, K: Ord + Clone, V: Clone> ItemIterator<'a, K, V> {
 
         // Optimized: Direct conditional logic instead of Option combinators
         let beyond_end = if let Some(end_key) = self.end_key {
-            key >= end_key
+            if self.end_inclusive {
+                key > end_key
+            } else {
+                key >= end_key
+            }
         } else if let Some(ref end_bound) = self.end_bound_key {
             if self.end_inclusive {
                 key > end_bound
